@@ -18,6 +18,7 @@ func init() {
 			c.run("C10-R5", "LITERAL: stop-and-delete message agreement", c10R5)
 			c.run("C10-R6", "ORDER: flavour visible to whoever sees the latch; first stop wins", func(c *Ctx) { c10R6(c); c10R6Reader(c) })
 			c.run("C10-R7", "WHO-CALLS: the stop error travels unwrapped from the stop check to the reporter", c10R7)
+			c.run("C10-R9", "MUST-PASS/GUARD-DOM: Ctrl-C reaches the stop question; its answers map to their actions", c10R9)
 			c.run("C10-R8", "MUST-PASS/WHO-CALLS: SIGINT/SIGTERM on the server reach the stop entry point", c10R8)
 			c.run("C10-S", "shared with C02: success only after the digest compare and the saved==size gate", func(c *Ctx) { c02Digest(c); c02SavedSize(c) })
 		})
@@ -677,4 +678,127 @@ func c10R8(c *Ctx) {
 		}
 		c.check(good, m.main+"/installs-signal-stop", c.pos(mf.Pos()), "the server installs the signal handler for the transfer it runs", "the server does not install the signal handler for the transfer it runs")
 	}
+}
+
+// c10R9: the client's stop question. Ctrl-C while a transfer is active always reaches the stop question (newer
+// servers) or a plain stop (older ones); the question pauses the transfer first; and its answer maps to actions:
+// 0 -> stop and keep, 1 -> stop and delete, 2 or a failed prompt -> continue. The public StopTransferringFiles
+// forwards its flavour to the active transfer.
+func c10R9(c *Ctx) {
+	si := c.fn("TrzszFilter.sendInput")
+	isStopish := func(in ssa.Instruction) bool {
+		ci, ok := in.(ssa.CallInstruction)
+		if !ok {
+			return false
+		}
+		id := calleeID(ci.Common())
+		return id == "(*trzsz.TrzszFilter).confirmStopTransfer" || id == tT+"stopTransferringFiles"
+	}
+	// the Ctrl-C edge: len(buf)==1 && buf[0]==3 while transfer != nil
+	n := 0
+	for _, b := range si.Blocks {
+		i := blockIf(b)
+		if i == nil {
+			continue
+		}
+		op, _, y, ok := cmpFact(normFact(fact{V: i.Cond, Pol: true}))
+		if !ok || op != token.EQL || !isConstIntV(3)(y) {
+			continue
+		}
+		tr := false
+		for _, fc := range factsAt(b) {
+			o2, x2, y2, ok2 := cmpFact(fc)
+			if ok2 && o2 == token.NEQ && isNilConst(y2) {
+				if call, _ := callOf(x2); call != nil && isAtomicOnField(call, "transfer", "Load") {
+					tr = true
+				}
+			}
+		}
+		if !tr {
+			continue
+		}
+		n++
+		hit, path := reachFrom(b.Succs[0], 0, isReturn, isStopish)
+		c.check(hit == nil, "sendInput/ctrl-c=>stop", c.ipos(i), "a lone Ctrl-C during a transfer always reaches the stop question or a stop", "a Ctrl-C typed during a transfer can be swallowed without stopping or asking", c.pathStr(path)...)
+	}
+	if n == 0 {
+		c.bad("sendInput/ctrl-c=>stop", c.pos(si.Pos()), "the Ctrl-C test of the input handler (under an active transfer) was not found")
+	}
+	cs := c.fn("TrzszFilter.confirmStopTransfer")
+	g := c.fn("TrzszFilter.confirmStopTransfer$1")
+	pauses := callsIn(cs, idIs(tT+"pauseTransferringFiles"))
+	started := false
+	eachInstr(cs, func(in ssa.Instruction) {
+		if gi, ok := in.(*ssa.Go); ok {
+			if mc, ok := gi.Call.Value.(*ssa.MakeClosure); ok && mc.Fn == ssa.Value(g) && len(pauses) == 1 && domI(pauses[0].(ssa.Instruction), gi) {
+				started = true
+			}
+		}
+	})
+	c.check(started, "confirmStopTransfer/pause-before-question", c.pos(cs.Pos()), "the transfer is paused before the question is shown", "the stop question is shown without pausing the transfer first")
+	runs := callsIn(g, idIs("(*github.com/trzsz/promptui.Select).Run"))
+	if len(runs) != 1 {
+		c.lost("prompt.Run in the stop question")
+	}
+	idx := extractOf(runs[0].(*ssa.Call), 0)
+	perr := extractOf(runs[0].(*ssa.Call), 2)
+	idxIs := func(k int64, val bool) assumption {
+		return assumption{val: val, cmp: func(op token.Token, x, y ssa.Value) (bool, bool) {
+			if (op != token.EQL && op != token.NEQ) || !sameValue(x, idx) || !isConstIntV(k)(y) {
+				return false, false
+			}
+			return true, op == token.EQL
+		}}
+	}
+	errIsNil := func(val bool) assumption {
+		return assumption{val: val, cmp: func(op token.Token, x, y ssa.Value) (bool, bool) {
+			if (op != token.EQL && op != token.NEQ) || !sameValue(x, perr) || !isNilConst(y) {
+				return false, false
+			}
+			return true, op == token.EQL
+		}}
+	}
+	type want struct {
+		name   string
+		as     []assumption
+		resume bool
+		stop   int // -1 none, 0 keep, 1 delete
+	}
+	for _, w := range []want{
+		{"prompt-failed", []assumption{errIsNil(false)}, true, -1},
+		{"continue", []assumption{errIsNil(true), idxIs(2, true), idxIs(0, false), idxIs(1, false)}, true, -1},
+		{"stop-keep", []assumption{errIsNil(true), idxIs(2, false), idxIs(0, true), idxIs(1, false)}, false, 0},
+		{"stop-delete", []assumption{errIsNil(true), idxIs(2, false), idxIs(0, false), idxIs(1, true)}, false, 1},
+	} {
+		reach := blocksUnder(g, w.as)
+		gotResume, gotStop := false, -1
+		bad := false
+		for _, ci := range callsIn(g, idIs(tT+"resumeTransferringFiles", tT+"stopTransferringFiles")) {
+			if !reach[ci.Block()] {
+				continue
+			}
+			if calleeID(ci.Common()) == tT+"resumeTransferringFiles" {
+				gotResume = true
+				continue
+			}
+			b, isC := constBool(ci.Common().Args[1])
+			k := 0
+			if b {
+				k = 1
+			}
+			if !isC || (gotStop != -1 && gotStop != k) {
+				bad = true
+			}
+			gotStop = k
+		}
+		c.check(!bad && gotResume == w.resume && gotStop == w.stop, "confirmStopTransfer/answer="+w.name, c.ipos(runs[0]), "this answer leads to exactly its action (continue / stop and keep / stop and delete)", "the answer '"+w.name+"' of the stop question leads to the wrong action")
+	}
+	api := c.fn("TrzszFilter.StopTransferringFiles")
+	good := false
+	for _, ci := range callsIn(api, idIs(tT+"stopTransferringFiles")) {
+		if isVar("stopAndDelete")(ci.Common().Args[1]) {
+			good = true
+		}
+	}
+	c.check(good, "StopTransferringFiles/forwards", c.pos(api.Pos()), "the public stop call forwards its flavour to the active transfer", "the public stop call does not stop the active transfer with the requested flavour")
 }
